@@ -289,6 +289,80 @@ def skip (env : Env) : ResM (Char × Env) := return ('-', env)
 
 def hasLoader (env : Env) : Bool := env.slots.any fun o => match o with | some (.loader _) => true | _ => false
 
+/-- the harness holds at most one library loader at a time (a second `dlopen` of the same file would share
+    the mapping) -/
+def loaderBusy (env : Env) (k : CtorK) : Bool :=
+  match k with
+  | .loaderNew _ => hasLoader env
+  | _ => false
+
+def stepCtor (env : Env) (k : CtorK) (d : Nat) (e : Option Nat) : ResM (Char × Env) :=
+  if !env.isEmpty d then skip env else
+  if loaderBusy env k then skip env else
+  match env.ep e [d] with
+  | none => skip env
+  | some ep => do
+    let (cls, o, ep') ← ctorRun k ep
+    return (cls, (env.set d o).putEP e ep')
+
+def stepMut (env : Env) (k : MutK) (ty : Ty) (d : Nat) (e : Option Nat) : ResM (Char × Env) :=
+  match env.get d, env.ep e [d] with
+  | some o, some ep =>
+    if o.ty ≠ ty then skip env else
+    match mutRun k o ep with
+    | none => skip env
+    | some m => do
+      let (cls, o', ep') ← m
+      return (cls, (env.set d o').putEP e ep')
+  | _, _ => skip env
+
+def stepDerive (env : Env) (k : DeriveK) (s d : Nat) (e : Option Nat) : ResM (Char × Env) :=
+  match env.get s, env.ep e [d, s] with
+  | some o, some ep =>
+    if !env.isEmpty d then skip env else
+    match deriveRun k o ep with
+    | none => skip env
+    | some m => do
+      let (cls, o', n, ep') ← m
+      return (cls, ((env.set s (some o')).set d n).putEP e ep')
+  | _, _ => skip env
+
+def stepConnect (env : Env) (d srv : Nat) (e : Option Nat) : ResM (Char × Env) :=
+  match env.get d, env.get srv, env.ep e [d, srv] with
+  | some (.sock s), some (.sock sv), some ep =>
+    if d = srv ∨ s.state ≠ 0 ∨ s.kind ≠ 0 ∨ sv.state ≠ 1 ∨ sv.kind ≠ 0 ∨ sv.pending ≥ 3 then skip env else do
+      let (cls, s', sv', ep') ← sockConnect s sv ep
+      return (cls, ((env.set d (some (.sock s'))).set srv (some (.sock sv'))).putEP e ep')
+  | _, _, _ => skip env
+
+def stepDtor (env : Env) (ty : Ty) (d : Nat) : ResM (Char × Env) :=
+  match env.get d with
+  | some o => if o.ty ≠ ty then skip env else do dtorRun o; return ('S', env.set d none)
+  | none => skip env
+
+/-- calls that only set an error (a missing file, invalid arguments) -/
+def stepSetErr (env : Env) (e : Option Nat) (viaPointer : Bool) : ResM (Char × Env) :=
+  match env.ep e [] with
+  | none => skip env
+  | some ep => do
+    let ep' ← setErr ep
+    let cls := if viaPointer then (match ep, ep' with | some none, some r => errCls r true | _, _ => 'S') else 'F'
+    return (cls, env.putEP e ep')
+
+def stepThread (env : Env) (d : Nat) (body : Bool) (key : Option Nat) : ResM (Char × Env) :=
+  if !env.isEmpty d then skip env else
+  match key with
+  | none => do
+    let (t, l, _) ← threadRun env.lib none body
+    return (if t.isSome then 'S' else 'F', { env with lib := l }.set d (t.map Obj.thread))
+  | some k =>
+    match env.get k with
+    | some (.tls tl) => do
+      let (t, l, tl') ← threadRun env.lib (some tl) body
+      let env' := { env with lib := l }.set k (some (.tls (tl'.getD tl)))
+      return (if t.isSome then 'S' else 'F', env'.set d (t.map Obj.thread))
+    | _ => skip env
+
 def step (c : Call) (env : Env) : ResM (Char × Env) :=
   match c with
   | .glob .libInit _ => do let l ← libInit env.lib; return ('S', { env with lib := l })
@@ -297,73 +371,16 @@ def step (c : Call) (env : Env) : ResM (Char × Env) :=
   | c =>
     if !env.lib.inited then skip env else
     match c with
-    | .ctor k d e =>
-      if !env.isEmpty d then skip env else
-      if (match k with | .loaderNew _ => hasLoader env | _ => false) then skip env else
-      match env.ep e [d] with
-      | none => skip env
-      | some ep => do
-        let (cls, o, ep') ← ctorRun k ep
-        return (cls, (env.set d o).putEP e ep')
-    | .mut k ty d e =>
-      match env.get d, env.ep e [d] with
-      | some o, some ep =>
-        if o.ty ≠ ty then skip env else
-        match mutRun k o ep with
-        | none => skip env
-        | some m => do
-          let (cls, o', ep') ← m
-          return (cls, (env.set d o').putEP e ep')
-      | _, _ => skip env
-    | .derive k s d e =>
-      match env.get s, env.ep e [d, s] with
-      | some o, some ep =>
-        if !env.isEmpty d then skip env else
-        match deriveRun k o ep with
-        | none => skip env
-        | some m => do
-          let (cls, o', n, ep') ← m
-          return (cls, ((env.set s (some o')).set d n).putEP e ep')
-      | _, _ => skip env
-    | .connect d srv e =>
-      match env.get d, env.get srv, env.ep e [d, srv] with
-      | some (.sock s), some (.sock sv), some ep =>
-        if d = srv ∨ s.state ≠ 0 ∨ s.kind ≠ 0 ∨ sv.state ≠ 1 ∨ sv.kind ≠ 0 ∨ sv.pending ≥ 3 then skip env else do
-          let (cls, s', sv', ep') ← sockConnect s sv ep
-          return (cls, ((env.set d (some (.sock s'))).set srv (some (.sock sv'))).putEP e ep')
-      | _, _, _ => skip env
-    | .dtor ty d =>
-      match env.get d with
-      | some o => if o.ty ≠ ty then skip env else do dtorRun o; return ('S', env.set d none)
-      | none => skip env
+    | .ctor k d e => stepCtor env k d e
+    | .mut k ty d e => stepMut env k ty d e
+    | .derive k s d e => stepDerive env k s d e
+    | .connect d srv e => stepConnect env d srv e
+    | .dtor ty d => stepDtor env ty d
     | .glob .curThread _ => do let (cls, l) ← curThread env.lib; return (cls, { env with lib := l })
     | .glob .strtod _ => do let cls ← strtod; return (cls, env)
-    | .glob .fileRemoveMissing e | .glob .sockBad e =>
-      match env.ep e [] with
-      | none => skip env
-      | some ep => do let ep' ← setErr ep; return ('F', env.putEP e ep')
-    | .glob .errSetP e =>
-      match env.ep e [] with
-      | none => skip env
-      | some ep => do
-        let ep' ← setErr ep
-        let cls := match ep, ep' with
-          | some none, some r => errCls r true
-          | _, _ => 'S'
-        return (cls, env.putEP e ep')
-    | .threadRun d body key =>
-      if !env.isEmpty d then skip env else
-      match key with
-      | none => do
-        let (t, l, _) ← threadRun env.lib none body
-        return (if t.isSome then 'S' else 'F', { env with lib := l }.set d (t.map Obj.thread))
-      | some k =>
-        match env.get k with
-        | some (.tls tl) => do
-          let (t, l, tl') ← threadRun env.lib (some tl) body
-          let env' := { env with lib := l }.set k (some (.tls (tl'.getD tl)))
-          return (if t.isSome then 'S' else 'F', env'.set d (t.map Obj.thread))
-        | _ => skip env
+    | .glob .fileRemoveMissing e | .glob .sockBad e => stepSetErr env e false
+    | .glob .errSetP e => stepSetErr env e true
+    | .threadRun d body key => stepThread env d body key
     | _ => skip env
 
 /-! ## parsing call lines -/
